@@ -142,6 +142,53 @@ static int decode_canon(unsigned char *w, unsigned long n, unsigned char **xml, 
     return (int)r.ret;
 }
 
+/* Structural comparison of two parsed documents. Text that is itself a WBXML document (an embedded
+ * SyncML DevInf / DM payload carried as opaque data) is compared as a document (DESIGN 6.4 #2): its
+ * own string table may legitimately differ. */
+static int equiv_wbxml_bytes(const unsigned char *a, unsigned long an, const unsigned char *b, unsigned long bn, int lang, int depth);
+
+static int equiv_buf(WBXMLBuffer *a, WBXMLBuffer *b, int depth)
+{
+    unsigned long an = wbxml_buffer_len(a), bn = wbxml_buffer_len(b);
+    if (an == bn && (an == 0 || memcmp(wbxml_buffer_get_cstr(a), wbxml_buffer_get_cstr(b), an) == 0)) return 1;
+    if (depth > 3 || an < 4 || bn < 4) return 0;
+    return equiv_wbxml_bytes(wbxml_buffer_get_cstr(a), an, wbxml_buffer_get_cstr(b), bn, 0, depth + 1);
+}
+
+static int equiv_nodes(WBXMLTreeNode *a, WBXMLTreeNode *b, int depth)
+{
+    for (; a && b; a = a->next, b = b->next) {
+        WB_ULONG i, na, nb;
+        if (a->type != b->type) return 0;
+        if ((a->name == NULL) != (b->name == NULL)) return 0;
+        if (a->name && strcmp((const char *)wbxml_tag_get_xml_name(a->name), (const char *)wbxml_tag_get_xml_name(b->name))) return 0;
+        na = wbxml_list_len(a->attrs); nb = wbxml_list_len(b->attrs);
+        if (na != nb) return 0;
+        for (i = 0; i < na; i++) {
+            WBXMLAttribute *x = wbxml_list_get(a->attrs, i), *y = wbxml_list_get(b->attrs, i);
+            if (strcmp((const char *)wbxml_attribute_get_xml_name(x), (const char *)wbxml_attribute_get_xml_name(y))) return 0;
+            if (strcmp((const char *)wbxml_attribute_get_xml_value(x), (const char *)wbxml_attribute_get_xml_value(y))) return 0;
+        }
+        if ((a->content == NULL) != (b->content == NULL)) return 0;
+        if (a->content && !equiv_buf(a->content, b->content, depth)) return 0;
+        if ((a->tree == NULL) != (b->tree == NULL)) return 0;
+        if (a->tree && (a->tree->lang != b->tree->lang || !equiv_nodes(a->tree->root, b->tree->root, depth))) return 0;
+        if (!equiv_nodes(a->children, b->children, depth)) return 0;
+    }
+    return a == NULL && b == NULL;
+}
+
+static int equiv_wbxml_bytes(const unsigned char *a, unsigned long an, const unsigned char *b, unsigned long bn, int lang, int depth)
+{
+    WBXMLTree *ta = NULL, *tb = NULL; int eq = 0;
+    if (wbxml_tree_from_wbxml((WB_UTINY *)a, (WB_ULONG)an, (WBXMLLanguage)lang, WBXML_CHARSET_UNKNOWN, &ta) == WBXML_OK &&
+        wbxml_tree_from_wbxml((WB_UTINY *)b, (WB_ULONG)bn, (WBXMLLanguage)lang, WBXML_CHARSET_UNKNOWN, &tb) == WBXML_OK)
+        eq = ta->lang == tb->lang && equiv_nodes(ta->root, tb->root, depth);
+    if (ta) wbxml_tree_destroy(ta);
+    if (tb) wbxml_tree_destroy(tb);
+    return eq;
+}
+
 static int equivalent_wbxml(unsigned char *out, unsigned long len)
 {
     unsigned char *x = NULL; unsigned long xl = 0; int rr, eq;
@@ -149,6 +196,7 @@ static int equivalent_wbxml(unsigned char *out, unsigned long len)
     rr = decode_canon(out, len, &x, &xl);
     eq = (rr == WBXML_OK && base_xml_ret == WBXML_OK && xl == base_xml_len && memcmp(x, base_xml, xl) == 0);
     free(x);
+    if (!eq) eq = equiv_wbxml_bytes(base_out, base_len, out, len, doc_lang, 0);
     return eq;
 }
 
